@@ -726,6 +726,8 @@ def _content_variants(c):
 
     if c["created"] is not None:
         yield {"created": c["created"]}, f"created={c['created']!r}"
+    else:
+        yield {"created": 1600000000.123456, "text": "a"}, "timestamp-with-microseconds"
     if c["tags"] is not None:
         if c["tags"] == []:
             yield {"tags": []}, "tags=[]"
